@@ -221,6 +221,20 @@ pub fn main(args: &[String]) {
             for _ in 0..n {
                 let (_, a) = gen_pair(&mut rng, true);
                 let (_, o) = gen_pair(&mut rng, true);
+                // a multi-byte UTF-8 character inserted somewhere (often inside a string), cut inside it
+                if rng.chance(1, 6) {
+                    let ch = *rng.pick(&["\u{fc}", "\u{20ac}", "\u{1f600}", "\u{e9}"]);
+                    // prefer a position right after a double quote
+                    let quotes: Vec<usize> = a.iter().enumerate().filter(|(_, c)| **c == b'"').map(|(k, _)| k + 1).collect();
+                    let pos = if !quotes.is_empty() && rng.chance(2, 3) { *rng.pick(&quotes) } else { rng.below(a.len() + 1) };
+                    let mut whole = a[..pos].to_vec();
+                    whole.extend_from_slice(ch.as_bytes());
+                    whole.extend_from_slice(&a[pos..]);
+                    let cut = pos + 1 + rng.below(ch.len() - 1);
+                    emit(&whole[..cut], Some("B"));
+                    emit(&whole, Some(&format!("X {}", cut)));
+                    continue;
+                }
                 let b: Vec<u8> = match rng.below(5) {
                     0 => a.clone(),
                     1 => a[..rng.below(a.len() + 1)].to_vec(),
